@@ -37,6 +37,8 @@ class C10(Check):
                 # the kernel's mask of possible CPUs as /sys/devices/system/cpu/possible shows it (None: this machine's)
                 "mask": rng.choice([None, None, "0", "0-7", "0-3,8-11", "0,2-3", "0,2,4,6", "0-1,4-5,8", "0-2,4"]),
                 "key": members(1, 3), "value": members(1, 4), "ops": []}
+        if len(case["value"]) >= 2 and rng.random() < 0.3:
+            case["inherit"] = rng.randint(1, len(case["value"]) - 1)
         for hv in case["hashvars"]:
             hv[1] = rng.choice([0.29, 2.5, 0]) if hv[0] == "x" else rand_val(rng, hv[0])
         keys = [[rand_val(rng, f) for f in case["key"]] for _ in range(3)]
@@ -78,9 +80,16 @@ class C10(Check):
         try:
             with sim_bpf.installed(sim):
                 Key = type("Key", (Structure,), {f"k{i}": Member(f) for i, f in enumerate(case["key"])})
-                Value = type("Value", (Structure,), {f"v{i}": Member(f) for i, f in enumerate(case["value"])})
+                k = case.get("inherit") or 0
+                if k:
+                    # the value structure extends a base structure, which another Dict (declared first) uses by itself
+                    VBase = type("VBase", (Structure,), {f"v{i}": Member(f) for i, f in enumerate(case["value"][:k])})
+                    Value = type("Value", (VBase,), {f"v{i}": Member(f) for i, f in enumerate(case["value"]) if i >= k})
+                else:
+                    Value = type("Value", (Structure,), {f"v{i}": Member(f) for i, f in enumerate(case["value"])})
                 hm, pc = HashMap(), PerCPUArrayMap()
-                ns = {"table": Dict(key=Key, value=Value, size=8)}
+                ns = {"table0": Dict(key=Key, value=VBase, size=8)} if k else {}
+                ns["table"] = Dict(key=Key, value=Value, size=8)
                 if case["hashvars"]:
                     ns["hm"] = hm
                     for i, (f, d) in enumerate(case["hashvars"]):
@@ -192,7 +201,7 @@ class C10(Check):
 
     def rule(self):
         return ("programs declaring 0-4 hash-map variables (all formats incl. x, with defaults), 0-3 per-CPU array variables on a machine with 1/2/4/16 online CPUs "
-                "whose mask of possible CPUs is this machine's or one of 0, 0-7, 0-3,8-11, 0,2-3, 0,2,4,6, 0-1,4-5,8, 0-2,4 (served for /sys/devices/system/cpu/possible), a Dict with 1-3 key and 1-4 value members of all sizes; load() and 3-12 API operations: Dict set / get / in / pop / pop "
+                "whose mask of possible CPUs is this machine's or one of 0, 0-7, 0-3,8-11, 0,2-3, 0,2,4,6, 0-1,4-5,8, 0-2,4 (served for /sys/devices/system/cpu/possible), a Dict with 1-3 key and 1-4 value members of all sizes (30%: the value structure extends a base structure that an earlier Dict uses by itself); load() and 3-12 API operations: Dict set / get / in / pop / pop "
                 "with default / del / iteration, hash variable get / set, per-CPU read and indexing")
 
     def distribution(self, cases, observed):
